@@ -44,6 +44,7 @@ EVENTS = {
     'e_tup2': lambda: (val('v1'), val('v2')),
     'e_bin': lambda: val('b1'),
     'e_tbin': lambda: (val('v1'), val('b1')),
+    'e_ddb': lambda: val('ddb1'),
     'e_f': lambda: val('f1'),
     'e_es': lambda: val('es'),
     'e_el': lambda: val('el'),
@@ -322,6 +323,7 @@ class SrvAdapter:
                 if EVENTS[ev] is None:
                     raise Boom(ev)
                 return EVENTS[ev]()
+            h.plain = sorted(EVENTS).index(ev) % 2 == 0
             return h
 
         def wrap(f):
@@ -336,6 +338,11 @@ class SrvAdapter:
                     return f(sid, environ, auth)
                 return c3
             if list(sig.parameters)[-1] == 'args':
+                # on the asyncio server application handlers may be plain
+                # functions too: every other event keeps a plain function
+                if getattr(f, 'plain', False):
+                    return f
+
                 async def cv(sid, *args):
                     return f(sid, *args)
                 return cv
@@ -344,6 +351,19 @@ class SrvAdapter:
                 return f(sid, reason)
             return c2
 
+        # a function handler on the catch-all namespace for an event nobody
+        # sends: it is responsible for nothing and must change nothing (in
+        # particular it does not make unserved namespaces served)
+        if cfg.get('star_dummy', True):
+            def never(*a):
+                me.hc.append({'h': '?star-dummy', 'ns': '*', 'ev': '?',
+                              'sid': '?', 'pre': 0, 'args': toks(a)})
+            if is_async:
+                async def anever(*a):
+                    never(*a)
+                sio.on('zz_nobody_sends_this', anever, namespace='*')
+            else:
+                sio.on('zz_nobody_sends_this', never, namespace='*')
         if hkind == 'fn':
             for ns in cfg['ns_h']:
                 sio.on('connect', wrap(on_connect(ns, 'fn')), namespace=ns)
